@@ -32,7 +32,7 @@ ASSUMPTIONS = [
     "None), so the library's text-to-type guessing is not involved",
 ]
 
-VALUES = ["z", 7, 2.5, True, None, -7.5, -3, 0, ""]
+VALUES = ["z", 7, 2.5, True, None, -7.5, -3, 0, "", 10.0, 2.0]
 DOCS = []
 PATHS1 = []
 PATHS2 = []
@@ -68,12 +68,27 @@ def twin_pack():
     return out
 
 
+def set_pack():
+    """Sets elsewhere in the document: holding a member equal to the value
+    being replaced, not holding it, next to lists holding it, and two sets
+    with a common member."""
+    return [
+        ("m", (("a", "x"), ("s", ("s", ("x", "y"))),
+               ("b", ("l", ("x", 1000))))),
+        ("m", (("s", ("s", ("p", "q"))), ("a", 1), ("b", "p"))),
+        ("l", ("x", ("s", ("x", "w")), "w")),
+        ("m", (("a", ("s", ("x", "y"))), ("b", ("s", ("x",))), ("c", "x"))),
+        ("m", (("a", 1000), ("b", ("m", (("a", ("s", ("b", "1000"))),))))),
+    ]
+
+
 def build(tier):
     nmax = 4
     docs = corpus.docs(nmax, (1, 1000, "b", "a"), ("a", "b"), sets=False)
     for base in base_specs():
         docs += corpus.decorations(base, key_alias=False)
     docs += twin_pack()
+    docs += set_pack()
     voc = paths.vocab("c01-quick")
     p1 = [rp((s,)) for s in voc]
     navs = [("key", "a"), ("key", "b"), ("idx", 0), ("idx", 1), ("all",),
@@ -144,7 +159,14 @@ FORMAT_VALUES = [("BARE", "new", "new"), ("DQUOTE", "new", "new"),
                  ("FOLDED", "new text here", "new text here"),
                  ("LITERAL", "l1\nl2", "l1\nl2"), ("INT", "12", 12),
                  ("FLOAT", "1.5", 1.5), ("BOOLEAN", "true", True),
-                 ("DEFAULT", "new", "new")]
+                 ("DEFAULT", "new", "new"),
+                 # whole, negative, tiny and huge floats keep their value
+                 ("FLOAT", "1000.0", 1000.0), ("FLOAT", "-100.0", -100.0),
+                 ("FLOAT", "2", 2.0), ("FLOAT", "0.0000001", 1e-07),
+                 ("FLOAT", "1e20", 1e20), ("DEFAULT", 10.0, 10.0),
+                 # text that looks like another type stays text when quoted
+                 ("SQUOTE", "5", "5"), ("DQUOTE", "true", "true"),
+                 ("SQUOTE", "1.5", "1.5")]
 FORMAT_PATHS = [("/a", "a"), ("b", "a"), ("/c[0]", "a"),
                 ("(/a)+(/d)", "ad"), ("/e", "e"), ("/*[.=old]", "ad"),
                 ("/d", "d"), ("(/e)+(/d)", "ed"), ("/**[.=5]", "e")]
@@ -217,6 +239,17 @@ def _pv(node):
     return val[1] if isinstance(val, tuple) and len(val) == 2 else val
 
 
+def dup_set_members(canon):
+    if isinstance(canon, tuple) and canon:
+        if canon[0] == "s" and len(canon) > 1 and isinstance(canon[1], tuple):
+            members = list(canon[1])
+            if len(set(map(repr, members))) != len(members):
+                return True
+        return any(dup_set_members(c) for c in canon
+                   if isinstance(c, tuple))
+    return False
+
+
 def check_set(st, doc0, text, shp, segs, ptext, value, doc=None):
     """One set on a fresh copy of doc0; returns the edited copy or None."""
     st.evaluations += 1
@@ -226,6 +259,11 @@ def check_set(st, doc0, text, shp, segs, ptext, value, doc=None):
         return None
     if model[0] in ("error", "nomatch"):
         st.extra["no_match_or_error"] += 1
+        return None
+    if dup_set_members(model[1]):
+        # two members of one set given the same value: a set cannot hold
+        # both, and which one survives is nowhere stated
+        st.extra["unspecified"] += 1
         return None
     doc = editrun.fresh(doc0)
     before_alias = refedit.alias_signature(doc)
